@@ -504,6 +504,26 @@ class RaggedReadCode(Engine):
         self.cur = 'readcodelanguages'
         if tuple(ra.readcodelanguages) != tuple(sorted(offered)):
             raise Viol('readcode.languages', 'not_exactly_the_offered_ones', f'{ra.readcodelanguages} != {sorted(offered)}')
+        # a second ragged array in the same process (other atom rank, other index type): what is offered
+        # depends on the array asked, not on what another object was asked before
+        satom = (2,) if len(atom) == 0 else ()
+        sit = 'uint32' if it != 'uint32' else 'int16'
+        sib = darr.asraggedarray(os.path.join(work, 'sibling.darr'), [make_values((2,) + satom, dtype, 5)],
+                                 dtype=dtype, indextype=sit)
+
+        def expected(lang, atomrank, itype):
+            if lang == 'darr':
+                return True
+            col = COL[lang]
+            vok = types[vt][col] and (atomrank == 0 or ndt['N-D array'][col])
+            iok = (types[itype][col] and ndt['N-D array'][col]) or (lang == 'R' and itype == 'int64')
+            return bool(vok and iok)
+        sexp = sorted(l for l in RAGGED_LANGS_ALL if expected(l, len(satom), sit))
+        if list(sib.readcodelanguages) != sexp:
+            raise Viol('readcode.languages', 'second_array_in_same_process', f'{list(sib.readcodelanguages)} != {sexp}')
+        if list(ra.readcodelanguages) != sorted(offered):
+            raise Viol('readcode.languages', 'changed_after_other_array_was_queried', '')
+        st['probes']['sibling_checked'] = st['probes'].get('sibling_checked', 0) + 1
         st['transitions'].add(f'{dtype.kind}{dtype.itemsize}|{it}|atom{len(atom)}|n{min(n, 4)}|{mode}|z{int(0 in [x.shape[0] for x in L])}')
         emit({'dtype': D.dtstr(dtype), 'atom': list(atom), 'lens': [x.shape[0] for x in L], 'it': it, 'mode': mode, 'offered': offered})
 
